@@ -103,10 +103,14 @@ func genC10(seed uint64) *Plan {
 	pr.NPrefixes = 3
 	pr.AddPathTXProb = 0.3
 	pr.AggrChoices = []int64{5000, 20000, 100000}
-	pr.W = map[string]int{"announce": 8, "withdraw": 8, "wait": 1}
+	pr.W = map[string]int{"announce": 8, "withdraw": 8, "wait": 1, "stall": 2}
 	pr.BigGapProb = 0.01
 	pr.MinSteps, pr.MaxSteps = 10, 40
 	g := newGen("C10", seed, pr)
+	// goroutines that write to a neighbour (update sender flush, withdrawals from the tables) are
+	// interleaved at every write and lock acquisition by the seeded scheduler in half of the runs
+	g.plan.Sim.GateProb = pick(g.r, []float64{0, 0, 0.5, 1})
+	g.plan.Sim.Sticky = pick(g.r, []float64{0, 0.5})
 	g.connectAll()
 	g.workload()
 	return g.plan
